@@ -98,11 +98,14 @@ pub struct ReplayStats {
     pub mismatches: Vec<Value>,
     pub nmismatch: u64,
     pub tool_errors: Vec<String>,
+    pub sigs: std::collections::BTreeMap<String, u64>,
 }
 
 fn record(st: &mut ReplayStats, ty: &str, prop: &str, beh: &Value, step: usize, what: &str, got: String, want: String) {
     st.nmismatch += 1;
-    if st.mismatches.len() < 25 {
+    let c = st.sigs.entry(format!("{}:{}:{}", prop, ty, what.split('(').next().unwrap_or(what))).or_default();
+    *c += 1;
+    if *c <= 3 && st.mismatches.len() < 40 {
         st.mismatches.push(json!({"property": prop, "type": ty, "step": step, "what": what, "got": got, "want": want, "behaviour": beh}));
     }
 }
@@ -242,7 +245,7 @@ pub fn replay(args: &[String]) -> i32 {
     let out = json!({
         "tool": "tree-replay", "m": m, "behaviours": st.behaviours, "runs": st.runs, "steps": st.steps,
         "skipped_unrepresentable": st.skipped, "sweeps": st.sweeps, "sweep_targets": st.sweep_targets,
-        "mismatch_count": st.nmismatch, "mismatches": st.mismatches, "tool_errors": st.tool_errors,
+        "mismatch_count": st.nmismatch, "mismatch_sigs": st.sigs, "mismatches": st.mismatches, "tool_errors": st.tool_errors,
         "sample": sample,
     });
     println!("{}", out);
